@@ -482,6 +482,11 @@ func realize(s *Shape) (pack.Pack, core.Ev) {
 
 var lens = []int{0, 1, 2, 252, 253, 254, 255, 256, 257}
 
+// light: the histories of mutate.go write every pack several times; their
+// packs stay small (texts <= 400 bytes, lists <= 6 entries).  The number of
+// draws is the same with and without it.
+var light bool
+
 func rlen(r *rand.Rand, max int) int {
 	n := 0
 	switch r.Intn(8) {
@@ -500,6 +505,9 @@ func rlen(r *rand.Rand, max int) int {
 	}
 	if n > max {
 		n = max
+	}
+	if light && n > 400 {
+		n = 400
 	}
 	return n
 }
@@ -554,6 +562,9 @@ func anyMap(r *rand.Rand, depth, budget int) *valgen.Node {
 }
 
 func count012(r *rand.Rand, big int) int {
+	if light && big > 6 {
+		big = 6
+	}
 	switch r.Intn(6) {
 	case 0:
 		return 0
